@@ -13,7 +13,9 @@ def gen(rng, tier):
         g = common.genus(G); opt = rng.random() < 0.4
         D = common.random_divisor(rng, G, band=rng.choice(["low", "mid", None]) if opt else None)
         E = [(a, b) for a, b, _ in G["edges"]]; ori = [[a, b] if rng.random() < 0.5 else [b, a] for a, b in E if rng.random() < 0.7]
-        out.append({"G": G, "D": D, "opt": opt, "ori": ori, "fam": fam, "s": rng.randrange(1 << 30)})
+        c = {"G": G, "D": D, "opt": opt, "ori": ori, "fam": fam, "s": rng.randrange(1 << 30)}
+        if rng.random() < 0.2: c["DL"] = [rng.choice([1, -1]) * rng.choice([999, 1000, 1234, 10 ** 6, 2 ** 64 + 1]) if rng.random() < 0.6 else x for x in D]     # chip counts of many digits in the labels
+        out.append(c)
     for _ in range(6 if tier == "quick" else 60):
         # long recorded runs: a pile of chips far from a deep debt travels one firing at a time (hundreds of recorded steps)
         n = rng.choice([3, 4]); style = rng.choice([0, 1, 2, 4]); G = common.mk_graph(n, [(i, i + 1, 1) for i in range(n - 1)], None, style)
@@ -45,7 +47,7 @@ def impl(c):
             if now != exp: ok = False; break
         out["independent"] = ok
     # element lists
-    g = common.build_impl_graph(G, rng); d = common.build_impl_divisor(G, c["D"], graph=g); o = CFOrientation(g, [(names[a], names[b]) for a, b in c["ori"]])
+    g = common.build_impl_graph(G, rng); d = common.build_impl_divisor(G, c.get("DL", c["D"]), graph=g); o = CFOrientation(g, [(names[a], names[b]) for a, b in c["ori"]])
     def nodes(els): return sorted((e["data"]["id"], e["data"]["label"]) for e in els if "source" not in e["data"])
     def edges(els): return sorted((e["data"]["id"], tuple(sorted((e["data"]["source"], e["data"]["target"]))), e["data"].get("oriented", False), e["data"].get("arrow_shape"), (e["data"]["source"], e["data"]["target"]) if e["data"].get("oriented") else None) for e in els if "source" in e["data"])
     eg, ed, eo = _graph_to_cytoscape_elements(g), _divisor_to_cytoscape_elements(d), _orientation_to_cytoscape_elements(o)
@@ -54,7 +56,7 @@ def impl(c):
     extra = _grow2(G)
     if extra:
         for a, b, k in extra: g.add_edge(names[b], names[a], k)
-        d2 = common.build_impl_divisor(G, c["D"], graph=g); o2 = CFOrientation(g, [(names[a], names[b]) for a, b in c["ori"]])
+        d2 = common.build_impl_divisor(G, c.get("DL", c["D"]), graph=g); o2 = CFOrientation(g, [(names[a], names[b]) for a, b in c["ori"]])
         e1, e2, e3 = _graph_to_cytoscape_elements(g), _divisor_to_cytoscape_elements(d2), _orientation_to_cytoscape_elements(o2)
         out["el2_graph"] = [nodes(e1), edges(e1)]; out["el2_div"] = [nodes(e2), edges(e2)]; out["el2_ori"] = [nodes(e3), edges(e3)]
         e4 = _divisor_to_cytoscape_elements(d); out["el2_div_old"] = [nodes(e4), edges(e4)]       # the divisor object drawn before, on the same (grown) graph
@@ -98,10 +100,10 @@ def judge(c, r, mo):
     # elements against the specification
     M = common.matrix(G); exp_edges = sorted(("%s-%s-%d" % (names[a], names[b], i), (names[a], names[b])) for a in range(n) for b in range(a + 1, n) for i in range(M[a][b]))
     odir = {(min(a, b), max(a, b)): (a, b) for a, b in c["ori"]}
-    keys = [("el_graph", lambda v: names[v], M), ("el_div", lambda v: "%s\n%d" % (names[v], c["D"][v]), M), ("el_ori", lambda v: names[v], M)]
+    keys = [("el_graph", lambda v: names[v], M), ("el_div", lambda v: "%s\n%d" % (names[v], c.get("DL", c["D"])[v]), M), ("el_ori", lambda v: names[v], M)]
     if "el2_graph" in o:
         M2 = common.matrix(common.mk_graph_like(G, G["edges"] + _grow2(G)))
-        keys += [("el2_graph", lambda v: names[v], M2), ("el2_div", lambda v: "%s\n%d" % (names[v], c["D"][v]), M2), ("el2_div_old", lambda v: "%s\n%d" % (names[v], c["D"][v]), M2), ("el2_ori", lambda v: names[v], M2)]
+        keys += [("el2_graph", lambda v: names[v], M2), ("el2_div", lambda v: "%s\n%d" % (names[v], c.get("DL", c["D"])[v]), M2), ("el2_div_old", lambda v: "%s\n%d" % (names[v], c.get("DL", c["D"])[v]), M2), ("el2_ori", lambda v: names[v], M2)]
     for key, lab, MM in keys:
         exp_edges = sorted(("%s-%s-%d" % (names[a], names[b], i), (names[a], names[b])) for a in range(n) for b in range(a + 1, n) for i in range(MM[a][b]))
         nd, ed = o[key]
